@@ -8,7 +8,7 @@ CLAIM = dict(
    note="Trusted: Coq kernel, extraction (ExtrOcamlBasic), OCaml driver, the hand-written model (validated by the correspondence), CPython's issubclass/hasattr (tables). No axioms (all theorems closed under the global context). Partial: full mirror symmetry is false of the code (known findings).",
    technique="Coq proof (induction on fuel over a nested inductive of types) + differential correspondence impl vs extracted model", design="6 C12")
 
-THEOREMS = ["C12_total", "C12_leaf_opposite", "C12_leaf_merge", "C12_refl", "C12_mirror_partial", "C12_fuel_irrelevant", "C12_classes", "C12_classes_less",
+THEOREMS = ["C12_total", "C12_leaf_opposite", "C12_leaf_merge", "C12_leaf_tail", "C12_refl", "C12_mirror_partial", "C12_fuel_irrelevant", "C12_classes", "C12_classes_less",
             "C12_classes_mirror", "C12_classes_trans", "C12_generic_origin", "C12_generic_args",
             "C12_union_member", "C12_inter_member", "C12_dep_bound",
             "C12_mirror_refuted_union", "C12_mirror_refuted_inter"]
